@@ -21,6 +21,9 @@ def spec_refs(spec, out=None):
     elif k in ("L", "T", "S"):
         for s in spec[1]:
             spec_refs(s, out)
+    elif k == "M":
+        for s in spec[2]:
+            spec_refs(s, out)
     elif k == "D":
         for ks, vs in spec[1]:
             spec_refs(ks, out)
@@ -129,6 +132,9 @@ def eval_spec(spec, seen, objs):
         # supplied object is passed as is; equal value rebuilt here, identity
         # is checked separately against the supplied object
         pass
+    if k == "M":
+        # the caller's own list object, holding these items at the time of this call
+        return [eval_spec(s, seen, objs) for s in spec[2]]
     if k == "L":
         return [eval_spec(s, seen, objs) for s in spec[1]]
     if k == "T":
